@@ -180,6 +180,81 @@ pub fn main(tier: Tier, replay: Option<Value>) -> i32 {
             }
         }
     }
+    // the output path already exists: the file system is part of the state the tool starts from. Every operation is
+    // run onto an output path that is absent / empty / shorter garbage / longer garbage / the larger result of an
+    // earlier run; what is at the path afterwards must be byte for byte what the same operation leaves in a fresh
+    // directory (and restore the file), whatever was there before.
+    {
+        let big = cmp::text_like(200_000, 21);
+        let small_set: Vec<(&str, Vec<u8>)> = vec![("empty", vec![]), ("text 900", cmp::text_like(900, 22)), ("text 60 000", cmp::text_like(60_000, 23)), ("one block + 1", cmp::text_like(B + 1, 24))];
+        let d0 = root.join("existing-setup");
+        std::fs::create_dir_all(&d0).unwrap();
+        std::fs::write(d0.join("big.dat"), &big).unwrap();
+        let r0 = run_cli(&cli, &d0, &["compress", "big.dat", "big.zst", "--level", "1"]);
+        let big_z = std::fs::read(d0.join("big.zst")).unwrap_or_default();
+        if r0.code != Some(0) || big_z.is_empty() {
+            run.violation(Violation { identity: "compress_failed:level_1:existing_setup".into(), what: format!("compress of a 200 000-byte text file at level 1: exit status {:?}, {} bytes written", r0.code, big_z.len()), replay: json!({"args": ["compress", "big.dat", "big.zst", "--level", "1"]}) });
+        } else {
+            let pre_states: Vec<(&str, Option<Vec<u8>>, Option<Vec<u8>>)> = vec![
+                // (name, what is at the compress output path before, what is at the decompress output path before)
+                ("absent", None, None),
+                ("empty file", Some(vec![]), Some(vec![])),
+                ("10 bytes of garbage", Some(vec![0x5A; 10]), Some(vec![0x5A; 10])),
+                ("300 000 bytes of garbage", Some(vec![0xA5; 300_000]), Some(vec![0xA5; 300_000])),
+                ("the larger result of an earlier run", Some(big_z.clone()), Some(big.clone())),
+            ];
+            let mut hist_cases = 0u64;
+            for (ci, (cname, data)) in small_set.iter().enumerate() {
+                for (li, larg) in [None, Some("0"), Some("1")].iter().enumerate() {
+                    let mut fresh_z: Option<Vec<u8>> = None;
+                    for (pi, (pname, pre_z, pre_plain)) in pre_states.iter().enumerate() {
+                        evals += 1;
+                        hist_cases += 1;
+                        let d = root.join(format!("existing-{ci}-{li}-{pi}"));
+                        std::fs::create_dir_all(&d).unwrap();
+                        std::fs::write(d.join("input.dat"), data).unwrap();
+                        if let Some(p) = pre_z {
+                            std::fs::write(d.join("out.zst"), p).unwrap();
+                        }
+                        let mut args = vec!["compress", "input.dat", "out.zst"];
+                        if let Some(l) = larg {
+                            args.extend_from_slice(&["--level", l]);
+                        }
+                        let rp = json!({"content": cname, "args": args, "output_path_before": pname});
+                        let r = run_cli(&cli, &d, &args);
+                        let z = std::fs::read(d.join("out.zst")).ok();
+                        let lname = larg.unwrap_or("absent");
+                        let case = format!("compress [{cname}] level {lname} onto an output path holding: {pname}");
+                        let Some(z) = z.filter(|_| r.code == Some(0)) else {
+                            run.violation(Violation { identity: format!("existing_output:compress_failed:{pname}"), what: format!("{case}: exit status {:?}; stderr: {}", r.code, crate::ev::truncate(r.stderr.trim(), 200)), replay: rp });
+                            continue;
+                        };
+                        if pi == 0 {
+                            fresh_z = Some(z.clone());
+                        }
+                        let same_as_fresh = fresh_z.as_ref().map_or(true, |f| *f == z);
+                        let ref_ok = refz::decode(&z).map(|p| p == *data).unwrap_or(false);
+                        if !same_as_fresh || !ref_ok {
+                            run.violation(Violation { identity: format!("existing_output:compress:{pname}"), what: format!("{case}: the file at the output path afterwards ({} bytes) {} and libzstd {} the input from it", z.len(), if same_as_fresh { "equals the fresh-directory result".to_string() } else { format!("differs from the fresh-directory result ({} bytes)", fresh_z.as_ref().map_or(0, |f| f.len())) }, if ref_ok { "restores" } else { "does not restore" }), replay: rp });
+                            continue;
+                        }
+                        if let Some(p) = pre_plain {
+                            std::fs::write(d.join("restored.dat"), p).unwrap();
+                        }
+                        let r2 = run_cli(&cli, &d, &["decompress", "out.zst", "restored.dat"]);
+                        let got = std::fs::read(d.join("restored.dat")).ok();
+                        if r2.code != Some(0) || got.as_deref() != Some(&data[..]) {
+                            run.violation(Violation { identity: format!("existing_output:decompress:{pname}"), what: format!("{case}, then decompress onto a path holding the same kind of content: exit status {:?}, restored file {:?} bytes, original {}; stderr: {}", r2.code, got.map(|g| g.len()), data.len(), crate::ev::truncate(r2.stderr.trim(), 200)), replay: rp });
+                        } else {
+                            ok_roundtrips += 2;
+                        }
+                        let _ = std::fs::remove_dir_all(&d);
+                    }
+                }
+            }
+            run.set("existing_output_cases", hist_cases);
+        }
+    }
     // the block encoder's decision automaton through the tool: every generator of C02's automaton alone and every
     // ordered pair of them as one file (so that every cross-block decision - table reuse, raw fallback after a
     // Huffman block, ... - is taken inside the process a user runs), compress at level 1 (alone: also without a
@@ -254,7 +329,7 @@ pub fn main(tier: Tier, replay: Option<Value>) -> i32 {
     run.set("successful_roundtrips", ok_roundtrips);
     run.set("operations_refused_cleanly", refused);
     run.set("exhaustive", true);
-    run.set("rule", "the built ruzstd-cli binary in fresh directories: level option {absent, 0, 1, 2, 3, 4, 5, 255, 256, 'x'} (long and short flag) x output path {explicit, defaulted} x 9/12 file contents (empty, 1 byte, text, one block -1/0/+1, incompressible 300 KB, RLE, binary with NULs); every produced file is decoded by libzstd and by the tool's decompress command with explicit and with defaulted target (run from another directory). Also: a directory as input, an output path in a directory that does not exist, and every strict prefix of a compressed file given to decompress (failure status required; a panic only if no output is left behind). Then every block generator of C02's decision automaton alone (with and without a level) and every ordered pair of them (level 1; thorough: also without) as one file through compress, libzstd and decompress. Implemented levels and no level: exit 0 and identical restored file. Otherwise: non-zero exit status and no panic that leaves an output file behind. non-trivial = completed round trips + cleanly refused operations");
+    run.set("rule", "the built ruzstd-cli binary in fresh directories: level option {absent, 0, 1, 2, 3, 4, 5, 255, 256, 'x'} (long and short flag) x output path {explicit, defaulted} x 9/12 file contents (empty, 1 byte, text, one block -1/0/+1, incompressible 300 KB, RLE, binary with NULs); every produced file is decoded by libzstd and by the tool's decompress command with explicit and with defaulted target (run from another directory). Also: every operation onto an output path that already holds nothing / an empty file / shorter garbage / longer garbage / the larger result of an earlier run (4 contents x 3 levels x 5 prior states: same bytes as in a fresh directory, file restored). Also: a directory as input, an output path in a directory that does not exist, and every strict prefix of a compressed file given to decompress (failure status required; a panic only if no output is left behind). Then every block generator of C02's decision automaton alone (with and without a level) and every ordered pair of them (level 1; thorough: also without) as one file through compress, libzstd and decompress. Implemented levels and no level: exit 0 and identical restored file. Otherwise: non-zero exit status and no panic that leaves an output file behind. non-trivial = completed round trips + cleanly refused operations");
     run.sample(json!({"args": ["compress", "input.dat"], "then": ["decompress", "<dir>/input.dat.zst"], "cwd_of_decompress": "another directory"}));
     run.finish()
 }
